@@ -16,6 +16,7 @@ import OrasModel.Driver.Rf
 import OrasModel.Driver.Rl
 import OrasModel.Driver.Tf
 import OrasModel.Driver.Cm
+import OrasModel.Driver.Lf
 import OrasModel.Driver.Ch
 import OrasModel.Driver.Pg
 import OrasModel.Driver.Rm
@@ -64,6 +65,9 @@ def handle (st : DState) (line : String) : DState × String :=
       | some (m, s) => (st, s!"m={m} s={s}")
       | none => (st, "bad-op"))
   | "ch" :: rest => (match Ch.step rest with
+      | some (m, s) => (st, s!"m={m} s={s}")
+      | none => (st, "bad-op"))
+  | "lf" :: rest => (match Lf.step' rest with
       | some (m, s) => (st, s!"m={m} s={s}")
       | none => (st, "bad-op"))
   | "cm" :: rest => (match Cm.step rest with
